@@ -142,8 +142,14 @@ def d2_single_source(ctx, ic, ii, ff):
         norm(tl.right) == 'startindex'
     ctx.decide(ok, 'R-FLOW', 'D2', ii, call, 'totallen', 'fit_frames(totallen = endindex - startindex)',
                detail=f'totallen={norm(tl) if tl is not None else None}')
+    DEFAULTS = {'stepsize': ('chunklen',), 'chunklen': ()}
     for kw, want, pos in (('chunklen', 'chunklen', 1), ('steplen', 'stepsize', 2)):
         a = get_arg(call, pos, kw)
+        if isinstance(a, ast.Name) and a.id != want and a.id not in ii.params:
+            # a local copy of the parameter (possibly with the parameter's own default substituted) is the parameter
+            ds = [norm(v) for v, st in defs_of(ii.node, a.id)]
+            if ds and want in ds and all(d == want or d in DEFAULTS[want] for d in ds):
+                a = ast.Name(id=want, ctx=ast.Load())
         ctx.decide(a is not None and norm(a) == want, 'R-FLOW', 'D2', ii, call, f'fit_frames::{kw}',
                    f'fit_frames({kw} = {want})', detail=f'{kw}={norm(a) if a is not None else "<default>"}')
     # defaults: stepsize None -> chunklen, startindex None -> 0, endindex None -> len
@@ -322,7 +328,9 @@ def d4_consumers(ctx, ic, ff):
     g = ctx.repo.func('array._archunkgenerator')
     n = 0
     for node, cal in ctx.E.callees(g):
-        if cal in (ic, ff) and isinstance(node, ast.Call):
+        # iterchunks / fit_frames, or a frame generator that itself obtains its counts from fit_frames
+        via = cal not in (ic, ff) and 'chunklen' in cal.params and any(c2 is ff for _, c2 in ctx.E.callees(cal))
+        if (cal in (ic, ff) or via) and isinstance(node, ast.Call):
             n += 1
             ps = [p for p in cal.params if p != 'self']
             a = get_arg(node, ps.index('chunklen'), 'chunklen')
@@ -352,9 +360,15 @@ def d5_frame_recurrence(ctx, ii, ff):
 
     def is_default_if(st):
         t = st.test
-        return isinstance(t, ast.Compare) and len(t.ops) == 1 and isinstance(t.ops[0], (ast.Is, ast.IsNot)) and \
-            isinstance(t.comparators[0], ast.Constant) and t.comparators[0].value is None and \
-            isinstance(t.left, ast.Name) and t.left.id in names
+        if not (isinstance(t, ast.Compare) and len(t.ops) == 1 and isinstance(t.ops[0], (ast.Is, ast.IsNot)) and
+                isinstance(t.comparators[0], ast.Constant) and t.comparators[0].value is None and
+                isinstance(t.left, ast.Name)):
+            return False
+        if t.left.id in names:
+            return True
+        # a local copy of a parameter (`steplen = stepsize; if steplen is None: steplen = chunklen`)
+        v = env.get(t.left.id)
+        return v is not None and any(v == P.atom(p_) for p_ in names)
 
     def on_if(st, en):
         if always_raises(st.body) and not st.orelse:
